@@ -348,7 +348,7 @@ func (x *Exec) zeroValue(t types.Type) Value {
 	case *types.Array:
 		var ls []Term
 		for _, zt := range x.flatten(x.zeroValue(u.Elem())) {
-			ls = append(ls, App("(as const "+string(ArrSort(SInt, zt.Sort))+")", ArrSort(SInt, zt.Sort), zt))
+			ls = append(ls, x.constArray(SInt, zt))
 		}
 		return VArr{ls, u.Len()}
 	case *types.Tuple:
